@@ -3,6 +3,7 @@ package main
 // Evaluation of contract expressions (Go expression syntax + spec builtins) into SMT terms.
 
 import (
+	"os"
 	"fmt"
 	"go/ast"
 	"go/constant"
@@ -734,6 +735,36 @@ func (e *Env) call(x *ast.CallExpr) Val {
 		}
 		srt := c.sortOf(t)
 		return Val{T: T(srt, "(%s %s)", e.ex.unboxFn(srt), v.T.S), Ty: t}
+	case "oldhas", "oldget":
+		// oldhas(m, k) / oldget(m, k): membership / value in the ENTRY state of the map denoted by m (evaluated in the
+		// entry state), for a key evaluated in the current state (so the key may mention locals and loop variables)
+		if e.old == nil {
+			panic(e.fail("%s() not available here", name))
+		}
+		n := e.inState(e.old)
+		n.locals = false
+		m := n.eval(x.Args[0])
+		mt, ok := m.Ty.Underlying().(*types.Map)
+		if !ok {
+			panic(e.fail("%s(m, k): not a map", name))
+		}
+		k := e.ex.coerce(e.eval(x.Args[1]), mt.Key()).T
+		if name == "oldhas" {
+			return Val{T: And(Not(Eq(m.T, IntLit("0"))), e.ex.mapHas(e.old, mt, m.T, k)), Ty: boolT}
+		}
+		return Val{T: e.ex.mapVal(e.old, mt, m.T, k), Ty: mt.Elem()}
+	case "mapsum":
+		// mapsum(m): the ghost weighted sum declared for m's map type (stubs: "mapsum <name> <weight> <type>")
+		m := e.eval(x.Args[0])
+		mt, ok := m.Ty.Underlying().(*types.Map)
+		if !ok {
+			panic(e.fail("mapsum(m): not a map"))
+		}
+		t, msd := e.ex.mapSumTerm(e.st, mt, m.T)
+		if msd == nil {
+			panic(e.fail("mapsum(m): no mapsum declared for %s", mt))
+		}
+		return Val{T: t, Ty: types.Typ[types.Int]}
 	case "visited":
 		// visited(m, k): the range loop over map m has already produced key k (ghost state of the iteration)
 		m := e.eval(x.Args[0])
@@ -925,9 +956,66 @@ func (e *Env) quant(kind string, args []ast.Expr) Val {
 		rng = T(SBool, "(and (<= %s %s) (< %s %s))", lo.S, bv, bv, hi.S)
 	}
 	if kind == "forall" {
+		// explicit triggers: the element accesses X[i] of the body (accessor terms whose index argument is the bare bound
+		// variable). Without them the solver picks triggers itself or falls back to model-based instantiation, which is
+		// what made quantified invariants over appended slices slow and unstable.
+		if pats := atPatterns(body.T.S, bv); len(pats) > 0 && c.Mode == ArithInt && os.Getenv("GOVC_EXPLICIT_PATTERNS") != "" {
+			var b strings.Builder
+			for _, p := range pats {
+				b.WriteString(" :pattern (" + p + ")")
+			}
+			return Val{T: T(SBool, "(forall ((%s %s)) (! %s%s))", bv, c.idxSort(), Implies(rng, body.T).S, b.String()), Ty: types.Typ[types.Bool]}
+		}
 		return Val{T: T(SBool, "(forall ((%s %s)) %s)", bv, c.idxSort(), Implies(rng, body.T).S), Ty: types.Typ[types.Bool]}
 	}
 	return Val{T: T(SBool, "(exists ((%s %s)) %s)", bv, c.idxSort(), And(rng, body.T).S), Ty: types.Typ[types.Bool]}
+}
+
+// atPatterns extracts the distinct accessor terms "(at.<key> <heap> <slice> bv)" of a formula whose index argument is
+// exactly the bound variable and which mention no other bound variable and no if-then-else (not allowed in patterns).
+func atPatterns(f string, bv string) []string {
+	var out []string
+	seen := map[string]bool{}
+	for i := 0; i+4 < len(f); i++ {
+		if !strings.HasPrefix(f[i:], "(at.") {
+			continue
+		}
+		depth := 0
+		end := -1
+		for j := i; j < len(f); j++ {
+			if f[j] == '(' {
+				depth++
+			} else if f[j] == ')' {
+				depth--
+				if depth == 0 {
+					end = j
+					break
+				}
+			}
+		}
+		if end < 0 {
+			continue
+		}
+		t := f[i : end+1]
+		if !strings.HasSuffix(t, " "+bv+")") || strings.Contains(t, "(ite ") {
+			continue
+		}
+		inner := strings.TrimSuffix(t, " "+bv+")")
+		if hasBoundVar(strings.ReplaceAll(inner, bv, "")) && strings.Contains(strings.ReplaceAll(inner, bv, ""), "!q") {
+			continue // mentions another quantified variable
+		}
+		if strings.Contains(inner, bv) {
+			continue
+		}
+		if !seen[t] {
+			seen[t] = true
+			out = append(out, t)
+		}
+	}
+	if len(out) > 3 {
+		out = out[:3]
+	}
+	return out
 }
 
 // specCall applies a spec function from /verif/specs.
